@@ -5,6 +5,7 @@
 #include <sys/personality.h>
 #include <unistd.h>
 
+#include <algorithm>
 #include <random>
 
 #include "common.h"
@@ -216,6 +217,56 @@ EncOut encode_with(ExpertEncoder &e, EncoderBuffer *buf) {
   return take(st, *buf, from, e.num_encoded_points(), e.num_encoded_faces());
 }
 
+// the caller's own use of an EncoderBuffer through its PUBLIC API before it is handed to an encoder:
+// scalars, byte blocks, bit sequences with and without stored size, Resize, Clear (always left outside bit mode)
+void exercise_buffer(EncoderBuffer &b, uint32_t seed) {
+  std::mt19937 rng(seed * 2246822519u + 3u);
+  const int steps = 1 + static_cast<int>(rng() % 6);
+  for (int i = 0; i < steps; ++i) {
+    unsigned kind = rng() % 7;
+    if (i == 0 && (rng() & 1)) kind = 2;
+    switch (kind) {
+      case 0: {
+        const uint32_t v = rng();
+        b.Encode(v);
+        break;
+      }
+      case 1: {
+        char blk[40];
+        const size_t n = rng() % sizeof(blk);
+        for (size_t k = 0; k < n; ++k) blk[k] = static_cast<char>(rng());
+        b.Encode(blk, n);
+        break;
+      }
+      case 2:
+      case 3: {
+        const int64_t nbits = 1 + static_cast<int64_t>(rng() % 300);
+        if (b.StartBitEncoding(nbits, kind == 2)) {
+          int64_t left = rng() % (nbits + 1);
+          while (left > 0) {
+            const int k = static_cast<int>(std::min<int64_t>(left, 1 + rng() % 32));
+            b.EncodeLeastSignificantBits32(k, rng());
+            left -= k;
+          }
+          b.EndBitEncoding();
+        }
+        break;
+      }
+      case 4:
+        b.Clear();
+        break;
+      case 5:
+        b.Resize(static_cast<int64_t>(rng() % (b.size() + 1)));
+        break;
+      default: {
+        const uint8_t v = static_cast<uint8_t>(rng());
+        b.Encode(v);
+        break;
+      }
+    }
+  }
+}
+
 std::unique_ptr<ExpertEncoder> new_expert(const Job &main) {
   std::unique_ptr<ExpertEncoder> ee(main.is_mesh ? new ExpertEncoder(*static_cast<const Mesh *>(main.pc.get()))
                                                  : new ExpertEncoder(*main.pc));
@@ -273,7 +324,9 @@ std::string sdiff(const std::string &ref, const std::string &x) {
 
 }  // namespace
 
-// det reps=<k> [trail=<len>:<seed>,…] <enc option tokens> -- <geometry>  { -- <option tokens> -- <geometry> }*
+// det reps=<k> [trail=<len>:<seed>,…] [bufhist=<seed>] <enc option tokens> -- <geometry>  { -- <option tokens> -- <geometry> }*
+//   bufhist: the shared EncoderBuffer of the rbufclear / rbufappend disciplines is first used by the "application"
+//   through its public API (scalars, blocks, bit sequences with / without size, Resize, Clear).
 //   the first (options, geometry) pair is the MAIN job, the following pairs are the HISTORY that the
 //   reused objects go through before the main job (in the order given).
 // Reference R: a fresh Encoder / ExpertEncoder that receives every setter call of the history and of
@@ -374,6 +427,8 @@ VH_OP(det) {
       const char pre[3] = {1, 2, 3};
       shared.Encode(pre, 3);  // the buffer already holds data of the application
     }
+    if (mode != 0 && main.o.count("bufhist"))
+      exercise_buffer(shared, static_cast<uint32_t>(strtoul(main.o.at("bufhist").c_str(), nullptr, 10)));
     auto run = [&](auto &&encode_job) {
       for (size_t h = 1; h <= nh + 1; ++h) {
         const Job &j = h <= nh ? jobs[h] : main;
